@@ -487,3 +487,80 @@ Proof.
       intros s0 a s1 A B C. exact (unc_inv_step s0 a s1 A B C). }
     destruct Hinv as (_ & Hcl & _). specialize (Hcl c). rewrite Hd in Hcl. exact Hcl.
 Qed.
+
+(* ======================================================================== *)
+(* Everyone is answered, completely.
+   Safety: as long as the origin completes every body it starts and the entry
+   is not removed under a pending revalidation, nobody ever receives an error
+   or a cut body.  The invariant is proved in two worlds: ne = true (nothing
+   is evicted) and ne = false (no 304 is ever answered). *)
+
+Definition good_ph (p : phase) : Prop :=
+  match p with
+  | Post (PHave r) | Done r => complete r = true
+  | _ => True
+  end.
+
+Definition ff_inv (ne : bool) (s : state) : Prop :=
+  (forall c, good_ph (ph s c)) /\
+  match stage_of s with
+  | Some (SWait _ true) => ne = true -> cache s <> None
+  | Some (SAnswered _ k) =>
+      kind_complete k = true /\ (k = KNotModified -> ne = true /\ cache s <> None)
+  | Some (SResult FError) => False
+  | _ => True
+  end.
+
+Definition ff_ok (ne : bool) (a : action) : bool :=
+  no_abort a && (if ne then negb (is_evict a) else negb (is_304 a)).
+
+Lemma ff_inv_init ne ks : ff_inv ne (init ks).
+Proof. unfold ff_inv, stage_of; cbn. auto. Qed.
+
+Lemma ff_inv_step ne s a s' :
+  ff_inv ne s -> ff_ok ne a = true -> lts_step s a = Some s' -> ff_inv ne s'.
+Proof.
+  intros (Hcl & Hfl) Hok Hstep.
+  unfold ff_ok in Hok. apply andb_true_iff in Hok as [Hna Hw].
+  destruct a; step_cases Hstep;
+    try (client_fact Hcl c Hcc);
+    know_stage Hfl; try contradiction; unfold ff_inv, stage_of; state_cbn;
+    repeat match goal with E : flight_ _ = _ |- _ => rewrite E end; state_cbn;
+    repeat match goal with E : fl_stage _ = _ |- _ => rewrite E end.
+  all: repeat split; auto; try congruence; try (per_client Hcl); try (intros; congruence).
+  - destruct ne; cbn in Hw; try discriminate; auto.
+  - destruct ne; cbn in Hw; try discriminate; auto.
+  - destruct Hfl as (_ & Hx). destruct (Hx eq_refl) as (_ & Hy). congruence.
+  - destruct Hfl as (Hx & _). cbn in Hx. discriminate.
+  - destruct r; try contradiction; destruct (ph s c0); cbn in *; auto.
+  - rewrite E2. exact Hfl.
+  - rewrite E2. exact Hfl.
+  - destruct ne; [cbn in Hw; discriminate|].
+    destruct (option_map fl_stage (flight_ s)) as [[| ? [|] | ? k | [| |]]|]; auto.
+    + intros; discriminate.
+    + destruct Hfl as (A & B). split; auto. intros Q. destruct (B Q). discriminate.
+Qed.
+
+Lemma forallb_and {A} (f g : A -> bool) l :
+  forallb f l = true -> forallb g l = true -> forallb (fun a => f a && g a) l = true.
+Proof.
+  induction l as [|x l IH]; cbn; auto. intros H1 H2.
+  apply andb_true_iff in H1 as [A1 B1]. apply andb_true_iff in H2 as [A2 B2].
+  rewrite A1, A2. cbn. auto.
+Qed.
+
+Theorem answers_complete : forall ks tr s,
+  run (init ks) tr = Some s -> fault_free tr = true ->
+  forall c r, ph s c = Done r -> complete r = true.
+Proof.
+  intros ks tr s Hrun Hff c r Hd.
+  unfold fault_free in Hff. apply andb_true_iff in Hff as [Hna Hw].
+  assert (Hex : exists ne, forallb (ff_ok ne) tr = true).
+  { apply orb_true_iff in Hw as [Hw|Hw]; [exists true|exists false];
+      apply (forallb_and no_abort _ tr Hna Hw). }
+  destruct Hex as (ne & Hok).
+  assert (Hinv : ff_inv ne s).
+  { refine (run_invariant (ff_inv ne) (ff_ok ne) _ tr (init ks) s (ff_inv_init ne ks) Hok Hrun).
+    intros s0 a s1 A B C. exact (ff_inv_step ne s0 a s1 A B C). }
+  destruct Hinv as (Hcl & _). specialize (Hcl c). rewrite Hd in Hcl. exact Hcl.
+Qed.
